@@ -1,7 +1,7 @@
 CONSTANTS
   PoolSel = "consts"
   ArgSel = "core"
-  MaxLen = 3
+  MaxLen = 2
   KeyMode = "pyeq"
   StoreMode = "store"
   Random = FALSE
